@@ -96,6 +96,10 @@ def scenarios(tier):
     S.append(mk("set-set-fine0-drop1", cfg("set", "set", 1, 1, (0,), (1, 0)), max_depth=90, max_states=400000))
     S.append(mk("alloc-peer-fine0-drop1", cfg("alloc", "peer", 1, 0, (0,), (1, 0)), max_depth=90, max_states=400000))
     S.append(mk("alloc-input-fine1-drop1", cfg("alloc", "input", 0, 1, (1,), (0, 1)), max_depth=90, max_states=400000))
+    ch = cfg("set", "set", 1, 1, (0,), (1, 0))
+    ch["hsfail"] = 1
+    ch["explored"] = tuple(ch["explored"]) + ("hsfail",)
+    S.append(mk("set-set-fine0-drop1-hsfail-dev3", ch, dev_bound=3 if q else None, max_depth=120, max_states=4000000))
     S.append(mk("set-set-dev2-drops2", cfg("set", "set", 1, 1, (0, 1), (2, 2), mode="deferred"), dev_bound=2, max_depth=200))
     S.append(mk("alloc-input-dev2-drops2", cfg("alloc", "input", 1, 1, (0, 1), (2, 2)), dev_bound=2, max_depth=200))
     if not q:
